@@ -133,3 +133,36 @@ Definition partial_trace (trunc n : nat) (modes : list nat) (st : @tensor C) : @
 Definition mismatches (model : @tensor C) (observed : tree) (trunc rank : nat) : list (list nat * C) :=
   flat_map (fun idx => let v := model idx in if ceqb v (tget observed idx) then [] else [(idx, v)])
            (all_idx trunc rank).
+
+(* ---- alloc / dealloc / prepare_multimode (whole methods, for the correspondence) ---- *)
+Definition vacuum : @tensor C := fun idx => if forallb (Nat.eqb 0) idx then cone else czero.
+
+Fixpoint list_eqb (a b : list nat) : bool :=
+  match a, b with
+  | [], [] => true
+  | x :: a', y :: b' => Nat.eqb x y && list_eqb a' b'
+  | _, _ => false
+  end.
+
+(* alloc(k): ops.tensor(state, vac, n, pure) with pos=None *)
+Definition alloc (pure : bool) (n : nat) (st : @tensor C) : @tensor C :=
+  tensordot0 cmul (if pure then n else 2 * n) st vacuum.
+
+(* dealloc(modes): mix if pure, then partial trace *)
+Definition dealloc (pure : bool) (trunc n : nat) (modes : list nat) (st : @tensor C) : @tensor C :=
+  partial_trace trunc n modes (if pure then mix cmul cconj n st else st).
+
+(* prepare_multimode(state, modes), tensor-shaped `state`:
+   circuit_pure / prep_pure say which representation the circuit state / the prepared state come in *)
+Definition prepare_multimode (circuit_pure prep_pure : bool) (trunc n : nat) (modes : list nat)
+           (st prep : @tensor C) : bool * @tensor C :=
+  let k := length modes in
+  let trailing := list_eqb modes (seq (n - k) k) in
+  if Nat.eqb n k then
+    (* self._state = state; self._pure = (state.shape == pure_shape) *)
+    (prep_pure, if trailing then prep else prepare_permute prep_pure n modes prep)
+  else
+    let rho := if circuit_pure then mix cmul cconj n st else st in
+    let prep' := if prep_pure then mix cmul cconj k prep else prep in
+    let T := tensordot0 cmul (2 * (n - k)) (partial_trace trunc n modes rho) prep' in
+    (false, if trailing then T else prepare_permute false n modes T).
